@@ -66,6 +66,20 @@ def query_handle(world, side, hidx, kinds, rng):  # pylint: disable=too-many-bra
 
     request = keys + absent
     rng.shuffle(request)
+
+    def census(what, last_stream):
+        # C18 (engine H also serves it): once a bulk read is over no pack or loose file is open any more - checked while
+        # the consumer still holds its reference to the last stream, as `with ... as stream` code does
+        if world.case.get('prop') != 'C18':
+            return
+        from .oracles import fd_census  # pylint: disable=import-outside-toplevel
+        import os  # pylint: disable=import-outside-toplevel
+
+        bad = [p for p in fd_census(world.root) if not os.path.basename(p).startswith('packs.idx')]
+        if bad:
+            closed = getattr(last_stream, 'closed', None)
+            fail('fd-leak', f'{what} is over, but descriptors are still open on {sorted(bad)[:4]} (last stream closed={closed})')
+
     for kind in kinds:
         if kind == 'has':
             got = handle.has_objects(request)
@@ -99,9 +113,11 @@ def query_handle(world, side, hidx, kinds, rng):  # pylint: disable=too-many-bra
                 )
         elif kind == 'stream':
             seen = {}
+            stream = None
             with handle.get_objects_stream_and_meta(request, skip_if_missing=False) as triplets:
                 for key, stream, _ in triplets:
                     seen[key] = None if stream is None else stream.read()
+            census('get_objects_stream_and_meta (sequential reads)', stream if request else None)
             exp = {k: model.get(k) for k in request}
             if seen != exp:
                 fail('wrong-bytes', f'get_objects_stream_and_meta differs for {[k[:12] for k in exp if seen.get(k, 0) != exp[k]]}')
@@ -109,6 +125,7 @@ def query_handle(world, side, hidx, kinds, rng):  # pylint: disable=too-many-bra
             # random access on the streams of a bulk read (zip / npy readers do this): a backward seek makes a compressed
             # packed object fall back to its re-loosened copy, which must be the copy of *this* object
             subset = request if len(request) <= 40 else rng.sample(request, 40)
+            stream = None
             with handle.get_objects_stream_and_meta(subset, skip_if_missing=True) as triplets:
                 for key, stream, _ in triplets:
                     data = model.get(key)
@@ -125,6 +142,16 @@ def query_handle(world, side, hidx, kinds, rng):  # pylint: disable=too-many-bra
                             f'bulk stream of {key[:12]} (len {len(data)}): read(3)={head!r} seek(0,2)={end} '
                             f'seek(-{back},2)={pos} then read() gives {len(tail)} bytes, matching={tail == data[len(data) - back :]}',
                         )
+            census('get_objects_stream_and_meta (streams with seeks)', stream)
+            # ... and the same through the single-object entry point, the way `with c.get_object_stream(k) as stream` is used
+            for key in [k for k in subset if k in model][:3]:
+                data = model[key]
+                with handle.get_object_stream(key) as stream:
+                    stream.seek(0, 2)
+                    stream.seek(0)
+                    if stream.read() != data:
+                        fail('wrong-bytes', f'get_object_stream of {key[:12]} after seek(0,2); seek(0)')
+                census('get_object_stream (with seeks)', stream)
 
 
 class HandlesOracle:
@@ -175,6 +202,16 @@ def execute(case):
                 world.sides['c'].last_index_writer = None
                 world.INDEX_WRITERS = ()
                 world.run(case['ops'])
+                if case.get('prop') == 'C18':
+                    import gc  # pylint: disable=import-outside-toplevel
+
+                    from .oracles import fd_census  # pylint: disable=import-outside-toplevel
+
+                    world.close_all()
+                    gc.collect()
+                    left = fd_census(root)
+                    if left:
+                        raise Violation('fd-leak-after-close', f'{sorted(left)[:6]}', len(case['ops']))
             except Violation as exc:
                 result['ok'] = False
                 result['violation'] = exc.as_dict()
